@@ -16,6 +16,9 @@ symbols c (amplitude: rho 1, sigma 2, tau 1, grad 1), N (nspin), e (energy densi
            outputs are rescaled by 1/2 * 2**deg
  spin-mirror  get_sigma / get_dsigma (GGA correlation baseline): values stored into spin slot b are the a<->b
            mirror of those stored into slot a (sign flip for odd functions of zeta), the ab slot is invariant
+ c-spin-mirror  model_utils.c kernels with paired spin pointers: stores (helpers inlined) invariant under a<->b
+ cutoff    every comparison of a density with the user's low-density cutoff, on the NLDF exponent chain and in the
+           kernel evaluators, is equivalent to `total density < cutoff` (nspin-degree bookkeeping along the chain)
  sites     every arithmetic use of nspin in the anchored files is enumerated; each must lie in a function
            covered by one of the typed analyses above (floor on the count, ceiling on uncovered sites)
  ab-sym    nr_uks*: statements mentioning one spin channel have a sibling with the channels renamed
@@ -493,45 +496,86 @@ def rule_normalizer_inputs(chk, cx):
 
 
 def rule_rhocut(chk, cx):
-    """the density threshold that reaches get_cider_exponent*(per-spin rho, ..., rhocut=...) from
-    NLDFAuxiliaryPlan.eval_feat_exp is a threshold on the per-spin density: constructor rhocut / nspin.
-    Decided by running the constructor and eval_feat_exp abstractly (rhocut typed, not polymorphic) and
-    observing the argument at the call, whatever attribute or helper carries it."""
-    s0 = deg.Session(chk.tree, [ST, FN, PL], poly_names=(), calls=STUBS, hooks_cls=PlanHooks)
+    """Low-density cutoffs along the spin paths.  The user's cutoff R is a threshold on the TOTAL density
+    n = nspin * rho_s.  R is typed with its own symbol (`cut`), densities with amplitude c and the nspin
+    symbol N (per-spin rho_s: N^0; the feature nspin*rho_s: N^1; a sum over the spin axis multiplies by N), and
+    every comparison `D < X` met while abstractly running the public entry points is observed: with D a
+    density (c^1 N^k) and X = R * N^j it decides  n-equivalent = D * N^-j, which must be the total density,
+    i.e. k - j == 1 -- on every path, whichever function of the call chain applies the 1/nspin.
+      * NLDFAuxiliaryPlan(rhocut=R).eval_feat_exp -> get_cider_exponent{,_gga}
+      * MappedDFTKernel(mode).__call__(X0T, rhocut=R), MappedDFTKernel2(mode).__call__(X0T, rho_tuple, ., rhocut=R)
+    """
+    s0 = deg.Session(chk.tree, [ST, FN, PL, XE, XE2], poly_names=(), calls=STUBS, hooks_cls=PlanHooks)
     KS = lambda xs: lst(*[K(x) for x in xs])  # noqa: E731
     seen = []
-    sigs = {}
-    for fname in ("get_cider_exponent", "get_cider_exponent_gga"):
-        sigs[fname] = [a.arg for a in s0.prog.module(ST).func(fname).args.args]
 
-    def ob(node, name, args, kwargs):
-        base = (name or "").split(".")[-1]
-        if base in sigs:
-            v = kwargs.get("rhocut")
-            if v is None and "rhocut" in sigs[base] and sigs[base].index("rhocut") < len(args):
-                v = args[sigs[base].index("rhocut")]
-            if v is not None:
-                seen.append((base, v, node))
+    def ob(node, vals):
+        if len(vals) != 2:
+            return
+        for a, b in ((vals[0], vals[1]), (vals[1], vals[0])):
+            if isinstance(a, Q) and isinstance(b, Q) and not a.is_rows and not b.is_rows \
+                    and a.deg is not ANY and b.deg is not ANY and b.deg.get("cut") == Lin.const(1) \
+                    and a.deg.get("c") == Lin.const(1) and not a.deg.get("cut").t:
+                seen.append((node, a.deg, b.deg, s0.eng.fr.rel, s0.eng.fr.name))
+    s0.eng.compare_observers = [ob]
+    R = lambda: q(cut=1)  # noqa: E731
+    reported = set()
+
+    def judge(entry, minimum):
+        got = {}
+        for node, d, x, rel, fn in seen:
+            got[(rel, fn, core.norm_text(pf.src(node)))] = (node, d, x)
+        del seen[:]
+        if len(got) < minimum:
+            raise core.AnalysisError("%s: no comparison of a density with the cutoff was reached" % entry)
+        for (rel, fn, txt), (node, d, x) in sorted(got.items()):
+            k, j = d.get("N"), x.get("N")
+            inst = "%s: `%s` in %s" % (entry, txt, fn)
+            if (k - j) == Lin.const(1):
+                chk.ok("cutoff", inst + " compares nspin^(%s) * rho_s with R * nspin^(%s)" % (k, j))
+            elif (rel, fn, txt) in reported:
+                chk.ok("cutoff", inst + " (same construct as reported above)", nontrivial=False)
+            else:
+                reported.add((rel, fn, txt))
+                chk.violation("cutoff", rel, entry.split("(")[0] + "." + entry.rsplit(".", 1)[-1].split("(")[0], txt,
+                              node.lineno,
+                              "in %s, reached from %s: the compared density is nspin^(%s) * (per-spin density) and the cutoff is "
+                              "R * nspin^(%s), i.e. the user's total-density cutoff R is applied to nspin^(%s) * n "
+                              "instead of n: closed-shell points with n within that factor of R are treated "
+                              "differently by the nspin=1 and nspin=2 paths" % (fn, entry, k, j, k - j - Lin.const(1)),
+                              instance=inst)
+    # 1. NLDF exponent chain
     for level in ("MGGA", "GGA"):
         th = lst(*[sym("th%d" % i) for i in range(3 if level == "MGGA" else 2)])
         st = s0.new(ST, "NLDFSettingsVJ", K(level), th, K("one"), KS(["se"]), lst(th))
-        plan = s0.new(PL, "NLDFAuxiliaryPlan", st, NSPIN, q(), sym("lambd"), num(4), rhocut=q(c=1),
-                      raise_large_expnt_error=K(False), use_smooth_expnt_cutoff=K(False))
+        plan = s0.new(PL, "NLDFAuxiliaryPlan", st, NSPIN, q(), sym("lambd"), num(4), rhocut=R(),
+                      raise_large_expnt_error=K(True), use_smooth_expnt_cutoff=K(False))
         if not isinstance(plan, deg.Obj):
             raise core.AnalysisError("NLDFAuxiliaryPlan: constructor could not be interpreted")
-        s0.eng.call_observers = [ob]
-        n0 = len(seen)
         rt = Tup([q(c=1), q(c=2)] + ([q(c=1)] if level == "MGGA" else []))
         s0.call(plan, "eval_feat_exp", [rt], {"i": num(-1)})
-        s0.eng.call_observers = []
-        cx.extra_visited |= set(s0.eng.visited)
-        if len(seen) == n0:
-            raise core.AnalysisError("NLDFAuxiliaryPlan(%s).eval_feat_exp: no call of get_cider_exponent* with a "
-                                     "rhocut argument was reached" % level)
-        for base, v, node in seen[n0:]:
-            cx.want("amp", None, "NLDFAuxiliaryPlan(%s).eval_feat_exp -> %s" % (level, base), v, "N", -1,
-                    "rhocut argument", PL, "NLDFAuxiliaryPlan.eval_feat_exp", node.lineno,
-                    "rho_s < rhocut/nspin  <=>  nspin*rho_s < rhocut (threshold on the total density)")
+        judge("NLDFAuxiliaryPlan(%s, rhocut=R).eval_feat_exp" % level, 1)
+    # 2. evaluators
+    for mode in ("SEP", "NPOL", "POL"):
+        X = rows(1, {0: q(c=1, N=1)}, default=q())
+        X.shape = Tup([NSPIN, q(), q()])
+        k1 = s0.new(XE, "MappedDFTKernel", lst(), Unk("feature_list"), K(mode), Unk("baseline"))
+        if not isinstance(k1, deg.Obj):
+            raise core.AnalysisError("MappedDFTKernel: constructor could not be interpreted")
+        s0.call(k1, "__call__", [X], {"rhocut": R()})
+        judge("MappedDFTKernel(mode=%s).__call__(rhocut=R)" % mode, 1)
+        rho = q(c=1)
+        rho.shape = Tup([NSPIN, q()])
+        X2 = rows(1, {0: q(c=1, N=1)}, default=q())
+        X2.shape = Tup([NSPIN, q(), q()])
+        k2 = s0.new(XE2, "MappedDFTKernel2", lst(), Unk("feature_list"), K(mode), Unk("baseline"))
+        if not isinstance(k2, deg.Obj):
+            raise core.AnalysisError("MappedDFTKernel2: constructor could not be interpreted")
+        s0.call(k2, "__call__", [X2, Tup([rho, q(c=2), q(c=1)]), Unk("vrho_tuple")], {"rhocut": R()})
+        judge("MappedDFTKernel2(mode=%s).__call__(rhocut=R)" % mode, 1)
+    s0.eng.compare_observers = []
+    cx.extra_visited |= set(s0.eng.visited)
+    chk.floor("cutoff", 5, "density/cutoff comparisons on the NLDF exponent chain and in the two kernel evaluators")
 
 
 # ----------------------------------------------------------------------------------------------------------
@@ -869,6 +913,53 @@ def rule_sep2(chk, cx):
     chk.floor("sep2", 10, "ingredients and outputs of two spin channels for GGA and MGGA tuples")
 
 
+MU_C = "mod_cider/model_utils.c"
+MU_C_REL = "ciderpress/lib/mod_cider/model_utils.c"
+
+
+def rule_c_spin_mirror(chk, cx):
+    """C spin kernels (clang AST): in every kernel that addresses the two spin channels through paired
+    pointers (x_a = x, x_b = x + offset), the set of stores -- with same-file helpers inlined, locals replaced
+    by their initialisers and commutative operands sorted -- must be invariant under the exchange a <-> b of
+    every pair.  Kernels bound to a Python evaluator (`libcider.<name>` in xc_evaluator.py) are violations,
+    exported but unbound ones are notes."""
+    from sa import cfacts, cparity
+    tree = chk.tree
+    tu = cfacts.TU(tree, MU_C)
+    bound = set()
+    for n in ast.walk(tree.py(XE)):
+        if isinstance(n, ast.Attribute) and n.attr in tu.funcs:
+            bound.add(n.attr)
+    n_k = 0
+    for fn in sorted(tu.funcs):
+        r = cparity.analyse(tu, fn)
+        if not r["pairs"]:
+            continue
+        n_k += 1
+        pairs = ", ".join("%s<->%s" % (a, b) for a, b, _ in r["pairs"])
+        bad = {(ln, txt) for ln, txt, _ in r["unmatched"]}
+        for ln, txt, c, img in r["effects"]:
+            inst = "%s: `%s` has its a<->b image among the kernel's stores" % (fn, txt[:90])
+            if (ln, txt) not in bad:
+                chk.ok("c-spin-mirror", inst)
+            elif fn in bound:
+                chk.violation("c-spin-mirror", MU_C_REL, fn, txt, ln,
+                              "exchanging the spin channels (%s) turns this store into `%s`, which no statement of "
+                              "the kernel performs: the derivative blocks of the two channels are not images of each "
+                              "other, so swapping the channels does not swap the potentials" % (pairs, img[:300]),
+                              instance=inst)
+            else:
+                chk.ok("c-spin-mirror", inst + " [not bound to an evaluator, noted]", nontrivial=False)
+                chk.note("c-spin-mirror", "%s:%s" % (MU_C_REL, fn),
+                         "line %d `%s` has no a<->b image (the function is exported but no evaluator binds it)" % (
+                             ln, txt[:80]))
+    if not n_k:
+        raise core.AnalysisError("no C kernel with paired spin-channel pointers found in %s" % MU_C)
+    if not any(f in bound for f in tu.funcs if cparity.analyse(tu, f)["pairs"]):
+        raise core.AnalysisError("no spin kernel of %s is bound by xc_evaluator.py" % MU_C)
+    chk.floor("c-spin-mirror", 3, "stores of the bound spin kernel(s)")
+
+
 SPIN_RESOLVED = {
     # function -> kinds of its positional parameters ("spin": leading axis = 2 channels; "sig3": aa, ab, bb)
     "get_sigma": {0: "spin"},
@@ -917,6 +1008,8 @@ def _analyse_own(chk):
     chk.rule("expnt", "exponent functions: nspin=2 branch == nspin=1 branch at the spin-doubled density, term by term")
     chk.rule("sep2", "SEP libxc baseline: ingredients doubled as 2**deg, outputs rescaled by 2**(deg-1)")
     chk.rule("spin-mirror", "baseline helpers: the slot-b statements are the a<->b mirror of the slot-a statements")
+    chk.rule("c-spin-mirror", "C spin kernels: the set of stores is invariant under the a<->b exchange of the paired pointers")
+    chk.rule("cutoff", "a density compared with the user's total-density cutoff is nspin-equivalent to the total density")
     chk.rule("sites", "every arithmetic use of nspin is enumerated and lies in a typed analysis")
     chk.rule("ab-sym", "nr_uks*: statements on one spin channel have an a<->b sibling")
     cx = Ctx(chk)
@@ -929,6 +1022,7 @@ def _analyse_own(chk):
     chk.guard(rule_exponent, cx)
     chk.guard(rule_sep2, cx)
     chk.guard(rule_spin_mirror, cx)
+    chk.guard(rule_c_spin_mirror, cx)
     chk.guard(rule_sites, cx)
     chk.guard(rule_ab, cx)
     chk.count("equal-degree obligations decided inside formulas", cx.s.eng.checks)
@@ -990,7 +1084,11 @@ def mutants(tree):
                "        B = np.pi / 2 ** (1.0 / 3) * (a0 - tau_fac)", expect="expnt"),
         Mutant("gga exponent: nspin=1 branch loses 2^(2/3)", ST, "        B = np.pi / 2 ** (2.0 / 3) * a0\n", "        B = np.pi * a0 / 2\n",
                expect="expnt"),
-        Mutant("rhocut not divided by nspin", PL, "self.rhocut = rhocut / nspin", "self.rhocut = rhocut * nspin", expect="amp"),
+        Mutant("rhocut not divided by nspin", PL, "self.rhocut = rhocut / nspin", "self.rhocut = rhocut * nspin", expect="cutoff"),
+        Mutant("rhocut divided by nspin a second time in get_cider_exponent", ST, "    cond = rho < rhocut\n",
+               "    rhocut = rhocut / nspin\n    cond = rho < rhocut\n", expect="cutoff"),
+        Mutant("SEP cutoff of MappedDFTKernel compares half the feature", XE, "cond = X0T[:, 0] < rhocut",
+               "cond = X0T[:, 0] < rhocut * X0T.shape[0]", expect="cutoff"),
         Mutant("occd s2/alpha rows nspin^(-2/3) -> ^(-1/3)", PL, "occd[:, 1:3] /= self.nspin ** (2.0 / 3)",
                "occd[:, 1:3] /= self.nspin ** (1.0 / 3)", expect="pair"),
         Mutant("SemilocalPlan2 vsigma nspin^2 -> nspin", PL, "vsigma[:] += self.nspin * self.nspin * vfeat[:, 1]",
@@ -1017,6 +1115,12 @@ def mutants(tree):
                expect="spin-mirror"),
         Mutant("cross gradient weighted by channel a only", BL, "sigma[1] = (sigma_s[0] + sigma_s[1]) * zfac",
                "sigma[1] = 2 * sigma_s[0] * zfac", expect="spin-mirror"),
+        Mutant("C spin kernel: channel-b derivative of aabb taken around xctrl_a", MU_C_REL,
+               "_add_deriv(outd_b + iloc, xin_b + iloc, xctrl_b + cloc, exps, aabb,", "_add_deriv(outd_b + iloc, xin_b + iloc, xctrl_a + cloc, exps, aabb,",
+               expect="c-spin-mirror"),
+        Mutant("C spin kernel: cross term of channel a weighted by aabb", MU_C_REL,
+               "_add_deriv(outd_a + iloc, xin_a + iloc, xctrl_b + cloc, exps, abba,", "_add_deriv(outd_a + iloc, xin_a + iloc, xctrl_b + cloc, exps, aabb,",
+               expect="c-spin-mirror"),
         Mutant("nelec of channel b accumulates den_a", NI, "nelec[1, i] += den_b.sum()", "nelec[1, i] += den_a.sum()",
                expect="ab-sym"),
         Mutant("NLDF eval_rho_full nspin factor removed (forward only)", PL, "        feat[:] *= self.nspin\n        # dfeat",
